@@ -120,7 +120,7 @@ func (dss *dataStoreSet) getDb(index int, create bool) (ds *dataStore, valid boo
 
 // empties every database in place, so that every connected client - not only
 // the caller - works on the flushed databases afterwards
-func (dss *dataStoreSet) flushAll(caller *dataStoreCommand) {
+func (dss *dataStoreSet) flushAll(owner *dataStoreCommand) {
 	dss.mu.Lock()
 	stores := make([]*dataStore, 0, len(dss.dbs))
 	for _, ds := range dss.dbs {
@@ -133,12 +133,12 @@ func (dss *dataStoreSet) flushAll(caller *dataStoreCommand) {
 	defer multiDataStoreLock.Unlock()
 
 	for _, ds := range stores {
-		if ds == caller.ds {
-			// the caller may already own this data store (MULTI)
-			caller.flush()
-		} else {
-			ds.newDataStoreCommand().flush()
+		dsc := ds.newDataStoreCommand()
+		if owner != nil && owner.ds == ds {
+			// the caller's transaction already owns this data store
+			dsc.id = owner.id
 		}
+		dsc.flush()
 	}
 }
 
